@@ -62,7 +62,7 @@ def gen_world(rng, n, for_sheet):
     # sheets only: some top-level subtrees live in a SECOND WBS (home 2), so that lists of linked tasks mix
     # rows of two WBSs and links leave the WBS in both directions
     W["home"] = [1] * n
-    if for_sheet and len(roots) >= 2 and rng.random() < 0.4:
+    if for_sheet and len(roots) >= 2 and rng.random() < 0.5:
         W["ext"] = [[] for _ in tasks]
         for r in roots[rng.randint(0, 1):]:
             if rng.random() < 0.6:
@@ -73,7 +73,7 @@ def gen_world(rng, n, for_sheet):
         free = [W["ids"][t] for t in range(n) if W["home"][t] == 1]
         rng.shuffle(free)
         for t in range(n):
-            if W["home"][t] == 2 and free and rng.random() < 0.5:
+            if W["home"][t] == 2 and free and rng.random() < 0.7:
                 W["ids"][t] = free.pop()
         for _ in range(6):          # links that cross the two WBSs, in both directions
             s, p = rng.randint(1, n), rng.randint(1, n)
